@@ -557,11 +557,21 @@ func runC18(c *Ctx) {
 				if u2.bdd.And(r.Cond, u2.bdd.And(pos, isSp)) != False {
 					bad = "a marker preceded by a blank is accepted as cosmetic: '0.0.0.0 host  ## comment' would no longer be a hosts line"
 				}
+				// only the FIRST occurrence of a marker character can start a marker: a later '#' is a
+				// hosts-file comment (### section, # see ##2), not cosmetic syntax
+				for leaf, lc := range u2.Leaves(idx) {
+					if u2.bdd.And(lc, r.Cond) == False {
+						continue
+					}
+					if !(leaf.Op == "call" && (leaf.Aux == "strings.Index" || leaf.Aux == "strings.IndexByte" || leaf.Aux == "strings.IndexRune") && len(leaf.Args) == 2 && leaf.Args[0] == g2.ParamExprs(fcm)[0]) && bad == "" {
+						bad = "the returned position is " + clip(u2.Show(leaf), 80) + ", not the first occurrence of a marker character in the line: a later '#' or '$' of a hosts-file comment is taken for a cosmetic marker and the line is dropped"
+					}
+				}
 			}
 			if !found {
 				bad = "UNDECIDED: no positive return"
 			}
-			c.Check(bad == "", "C18.R6", "findCosmeticRuleMarker: a marker preceded by a blank is not cosmetic syntax", fcm.Pos(), "every positive return excludes text[i-1] == ' ' for i > 0", bad)
+			c.Check(bad == "", "C18.R6", "findCosmeticRuleMarker: a marker preceded by a blank is not cosmetic syntax", fcm.Pos(), "every positive return excludes text[i-1] == ' ' for i > 0 and is the first occurrence of the marker character", bad)
 		}
 	}
 
